@@ -158,7 +158,7 @@ pub fn run(prop: &'static str, tier: Tier, seed: u64) -> i32 {
             let n = per_kind.entry(s.cfg.kind).or_insert(0);
             *n += 1;
             // W-TinyLFU's own property runs every closure on the no_std sketch as well
-            *n <= 2 || prop == "C10" || prop == "C08" || prop == "C01"
+            *n <= 2 || prop == "C10" || prop == "C08" || prop == "C01" || prop == "C17"
         });
     }
     let mut explores: Vec<Explore> = vec![];
@@ -234,8 +234,10 @@ pub fn run(prop: &'static str, tier: Tier, seed: u64) -> i32 {
         "C15" => reports.push(crate::faults::run_callback_consistency(tier)),
         "C16" => reports.push(crate::lfu::run_tinylfu("C16", tier)),
         "C17" => {
-            reports.push(crate::grid::conversion_determinism(tier));
-            reports.push(crate::grid::churn(tier));
+            if cfg!(feature = "std") {
+                reports.push(crate::grid::conversion_determinism(tier));
+                reports.push(crate::grid::churn(tier));
+            }
         }
         "C18" => reports.push(crate::faults::run(tier)),
         "C19" => reports.push(crate::probes::run(tier)),
@@ -363,7 +365,7 @@ pub fn run(prop: &'static str, tier: Tier, seed: u64) -> i32 {
         coverage["exhaustive"] = json!(exhaustive && pi["exhaustive"].as_bool().unwrap_or(false));
         coverage["second_feature_build"] = pi.clone();
         total_violations += pi["violations"].as_i64().unwrap_or(0) as i32;
-    } else if matches!(prop, "C01" | "C05" | "C08" | "C10" | "C11") {
+    } else if matches!(prop, "C01" | "C05" | "C08" | "C10" | "C11" | "C17") {
         coverage["second_feature_build"] = json!("not run (the no_std build is driven by ./check)");
     }
     let new_violations_total = total_violations;
